@@ -50,19 +50,19 @@ Proof.
     destruct R as (_ & _ & R1 & R2). apply N.eqb_neq in R1. apply N.eqb_neq in R2. rewrite R1, R2. exact F.
 Qed.
 
-Lemma lex_ser_real : forall neg m rest, real_ok neg m = true -> good_rest rest ->
-  lex1 (ser raw_name (OReal neg m) ++ rest) = (real_tok neg m, rest).
+Lemma lex_ser_real : forall nm neg m rest, real_ok neg m = true -> good_rest rest ->
+  lex1 (ser nm (OReal neg m) ++ rest) = (real_tok neg m, rest).
 Proof. intros. apply lex1_real; assumption. Qed.
 
 Lemma lex1_pos_body : forall (q : N) (tail : bytes), lex1 (dec q ++ tail) = number_body false (dec q ++ tail).
 Proof. intros. exact (lex1_sign_body false q tail). Qed.
 
-Lemma lex_ser_ref : forall n g rest, good_rest rest ->
+Lemma lex_ser_ref : forall nm n g rest, good_rest rest ->
   (Z.of_N n <=? i64_max)%Z = true -> (Z.of_N g <=? i64_max)%Z = true ->
-  exists r1 r2, lex1 (ser raw_name (ORef n g) ++ rest) = (TInt (Z.of_N n), r1)
+  exists r1 r2, lex1 (ser nm (ORef n g) ++ rest) = (TInt (Z.of_N n), r1)
              /\ lex1 r1 = (TInt (Z.of_N g), r2) /\ lex1 r2 = (TName name_R, rest).
 Proof.
-  intros n g rest G Hn Hg. cbn [ser]. rewrite <- app_assoc. cbn [app]. rewrite <- app_assoc. cbn [app].
+  intros nm n g rest G Hn Hg. cbn [ser]. rewrite <- app_assoc. cbn [app]. rewrite <- app_assoc. cbn [app].
   exists (32 :: dec g ++ 32 :: 82 :: rest), (32 :: 82 :: rest). repeat split.
   - rewrite lex1_pos_body. apply (number_body_int false n); [repeat split; discriminate|].
     unfold int_ok, signed. unfold i64_min. lia.
